@@ -13,6 +13,7 @@ namespace {
 struct TaskLog {
   std::vector<uint64_t> obs;
   std::vector<int> status;
+  std::vector<uint8_t> fired;  // which attached fault kinds fired in the operation
   std::vector<Violation> viol;
   Counters cnt;
   std::array<bool, NSLOTS> failed_target{};
@@ -301,6 +302,8 @@ void run_op(WorldRun &wr, int task, Pool &pool, const Op &op, uint32_t idx, Task
   }
   log.obs.push_back(c.out.obs);
   log.status.push_back(c.out.status);
+  log.fired.push_back((uint8_t)((sim::g_cur->fired_alloc ? 1 : 0) | (sim::g_cur->fired_scalar ? 2 : 0) |
+                                (sim::g_cur->fired_cb ? 4 : 0)));
 #ifdef SIM_EXACT
   retire_oversized(pool, log.pins);
 #endif
@@ -464,7 +467,26 @@ RunResult run_plan(const Plan &plan, const RunOptions &opt, Counters &cnt) {
   // differs between schedules, so oracle (b) is not evaluated for such a run
   // (TSan, the guard semantics and the progress oracle still are).
   bool static_fault = canon.stats.static_init_faults || ex.stats.static_init_faults;
-  if (have_canon && rr.viol.empty() && !ex.stats.deadlock && !canon.stats.deadlock && !static_fault) {
+  // Attached faults are addressed by (operation, k-th allocation / scalar
+  // operation of that operation). A library may legitimately perform fewer such
+  // steps in a call when another task has already done shared work (a correctly
+  // synchronised cache): the same attached fault then fires under one schedule
+  // and not under the other, and everything downstream differs for a reason that
+  // is not the library's. Oracle (b) is therefore evaluated only when every
+  // attached fault fired in the same operations under both schedules.
+  bool fault_divergent = false;
+  if (have_canon)
+    for (int t = 0; t < n && !fault_divergent; t++) {
+      const TaskLog &a = canon.logs[t], &b = ex.logs[t];
+      size_t m = std::min(a.fired.size(), b.fired.size());
+      for (size_t i = 0; i < m; i++)
+        if (a.fired[i] != b.fired[i]) {
+          fault_divergent = true;
+          break;
+        }
+    }
+  if (fault_divergent) local.runs_fault_divergent++;
+  if (have_canon && rr.viol.empty() && !ex.stats.deadlock && !canon.stats.deadlock && !static_fault && !fault_divergent) {
     for (int t = 0; t < n; t++) {
       const TaskLog &a = canon.logs[t], &b = ex.logs[t];
       size_t m = std::min(a.obs.size(), b.obs.size());
@@ -605,6 +627,7 @@ sj::Value counters_to_json(const Counters &c) {
   v.set("runs_multi", Value::U64(c.runs_multi)).set("runs_sweep", Value::U64(c.runs_sweep));
   v.set("runs_faultfree", Value::U64(c.runs_faultfree));
   v.set("canonical_compared_ops", Value::U64(c.canonical_compared_ops));
+  v.set("runs_fault_divergent", Value::U64(c.runs_fault_divergent));
   v.set("tsan_reports", Value::U64(c.tsan_reports)).set("leaked_blocks", Value::U64(c.leaked_blocks));
   static const char *pn[] = {"run_to_block", "random_walk", "pct", "stall", "script"};
   Value pol = Value::Obj();
